@@ -109,6 +109,20 @@ def run_history(ctx, g, rng, length):
         other = set(env.edge(t) for t in es)
         ok = {key(t) for t in es}
         r = [int(cfg <= other), int(cfg == other), int(cfg.isdisjoint(other))]
+        # the same comparisons against CFG objects holding the same edges: built in another insertion order, and with another history
+        cur = [e for e in cfg]
+        rng.shuffle(cur)
+        twin = g.CFG(cur)
+        twin2 = g.CFG(cur[::-1])
+        if cur:
+            extra = g.Edge(cur[0].source, cur[0].target, g.Edge.Label(g.Edge.Type.Sysret, True, False))
+            if extra not in twin2:
+                twin2.add(extra)
+                twin2.discard(extra)
+        for nm, tw in (("shuffled", twin), ("other-history", twin2)):
+            if not (cfg == tw) or (cfg != tw) or not (tw == cfg) or not (cfg <= tw) or not (cfg >= tw) or (cfg < tw):
+                problems.append("comparison with a CFG holding the same edges (%s) is wrong" % nm)
+            ctx.count("cfg_vs_cfg_comparisons")
         items.append([0x18, [env.esx(t) for t in es]]); impl.append([0] + r)
         if r != [int(shadow <= ok), int(shadow == ok), int(shadow.isdisjoint(ok))]:
             problems.append("comparisons with %s give %s" % (es, r))
